@@ -157,7 +157,13 @@ def check_catalog(cid, opsets, acc=None):
         try:
             onnx.checker.check_model(m, full_check=True)
         except Exception as e:
-            probs.append(("checker", _op_from_message(str(e)), str(e)[:250]))
+            if isinstance(e, MemoryError) or not str(e).strip():
+                # resource exhaustion under 16 parallel workers (large example models) says nothing about the model
+                if acc:
+                    acc.inconclusive += 1
+                    acc.tally("environment_limits", "checker: empty message / MemoryError (inconclusive)")
+            else:
+                probs.append(("checker", _op_from_message(str(e)), str(e)[:250]))
         ort_ok = False
         if v <= 26 and m.ByteSize() < 60_000_000 and not probs:
             try:
